@@ -160,6 +160,16 @@ class Engine:
                 ops.append({"op": "aborted", "cfg": settings_objs[reuse]["cfg"] if reuse else o.choice(cids),
                             "reuse": reuse, "parser": o.choice(parsers) if o.random() < 0.4 else None,
                             "body": o.choice(ABORT_BODIES)})
+            elif k < 0.925:
+                # crash at an arbitrary point: an operation is cut short by KeyboardInterrupt at its n-th I/O call
+                if o.random() < 0.7:
+                    reuse = o.choice(sorted(settings_objs)) if o.random() < 0.6 else None
+                    ops.append({"op": "interrupted", "what": "dparse", "doc": doc, "at": o.choice([0, 0, 1, 2, 4]),
+                                "cfg": settings_objs[reuse]["cfg"] if reuse else o.choice(cids), "reuse": reuse,
+                                "parser": o.choice(parsers) if o.random() < 0.4 else None})
+                else:
+                    ops.append({"op": "interrupted", "what": "sphinx", "at": o.choice([0, 1, 3, 6]),
+                                "cfg": o.choice(cids), "builder": "xml"})
             elif k < 0.94:
                 ops.append({"op": "mutate_returned", "how": o.choice(["clear_tree", "cfg_as_dict", "slugs", "ids"])})
             else:
@@ -270,7 +280,7 @@ class Engine:
         return {
             "evals": evals, "digest": log.digest(), "nontrivial": sorted(nontrivial), "counters": ctr,
             "violations": violations[:1], "sim_us": clock.now_us(),
-            "fault_free": not any(o["op"] == "aborted" for o in ops),
+            "fault_free": not any(o["op"] in ("aborted", "interrupted") for o in ops),
             "sample": {"ops": [_brief(o) for o in ops], "files": sorted(plan["files"]),
                        "configs": plan["configs"], "settings_objs": plan["settings_objs"]},
         }
@@ -491,6 +501,21 @@ def _run_op(op, plan, root, i, state: _State, fresh: bool):  # noqa: C901
             ov = sut.docutils_overrides(_resolve_cfg(plan["configs"][op["cfg"]], root), {"halt_level": 4})
             r = sut.docutils_parse(op["body"], path, root, overrides=ov, parser=parser)
         return ("aborted", r[0])
+    if kind == "interrupted":
+        from ..seams.fs import FsSeam
+
+        seam = FsSeam(root, [], interrupt_at=op["at"])
+        seam.install()
+        try:
+            try:
+                inner = {**op, "op": op["what"], "writer": None}
+                _run_op(inner, plan, root, i, state, fresh)
+            except KeyboardInterrupt:
+                pass
+        finally:
+            seam.uninstall()
+        state.interrupt_delivered = seam.interrupted
+        return ("interrupted", seam.interrupted)
     if kind == "mdit":
         from docutils.frontend import get_default_settings
         from docutils.utils import new_document
@@ -543,9 +568,13 @@ def _run_op(op, plan, root, i, state: _State, fresh: bool):  # noqa: C901
             conf = state.shared_conf[key]
         # html builds run the HTML writer (part of the history) but are observed through the resolved
         # doctrees; xml builds are observed through the written files (the doctree, serialised)
-        r = sut.sphinx_build(root, f"{'ref' if fresh else 'op'}{i}", root, conf, builder=op["builder"],
-                             observe="resolved" if op["builder"] == "html" else "written",
-                             share_confoverrides=bool(op.get("shared_conf")) and not fresh)
+        try:
+            r = sut.sphinx_build(root, f"{'ref' if fresh else 'op'}{i}", root, conf, builder=op["builder"],
+                                 observe="resolved" if op["builder"] == "html" else "written",
+                                 share_confoverrides=bool(op.get("shared_conf")) and not fresh)
+        except BaseException:  # an interrupted build: leave no output behind
+            shutil.rmtree(os.path.join(root, "_build"), ignore_errors=True)
+            raise
         ex = r[3]
         if not fresh and ex.get("cfg_before") != ex.get("cfg_after") and r[0] == "ok":
             fields = _diff_fields(ex["cfg_before"], ex["cfg_after"])
@@ -679,12 +708,16 @@ def _probes(op, state: _State, count, plan):
             count("probe_reused_renderer_object")
         if any(p["op"] == "aborted" for p in prev):
             count("probe_compared_parse_after_aborted_parse")
+        if any(p["op"] == "interrupted" for p in prev):
+            count("probe_compared_parse_after_interrupted_operation")
         if any(p["op"] == "sphinx" for p in prev):
             count("probe_docutils_parse_after_sphinx_build")
         if any(p["op"] == "edit" for p in prev):
             count("probe_parse_after_file_edit")
         if any(p["op"] == "mutate_returned" for p in prev):
             count("probe_parse_after_mutation_of_returned_object")
+    if kind == "interrupted" and getattr(state, "interrupt_delivered", False):
+        count("probe_interrupt_delivered_at_an_io_call")
     if kind == "sphinx" and prev:
         count("probe_sphinx_build_after_other_ops")
     if kind == "sphinx" and op.get("shared_conf") and any(p.get("shared_conf") == op["shared_conf"] for p in prev):
